@@ -1,3 +1,115 @@
 package main
 
-func cmdSelftest(a []string) int { return 0 }
+import (
+	"encoding/json"
+	"fmt"
+	"os"
+	"os/exec"
+	"path/filepath"
+	"regexp"
+	"sort"
+	"strconv"
+	"strings"
+	"sync"
+)
+
+// ---- must-fail corpus (DESIGN 2.8): the seeded changes under /verif/seeded ----
+// `rvc selftest [property...]` applies every seeded change to a scratch worktree of /repo (outside
+// /repo and /verif, removed afterwards) and runs the check of the property it breaks. A change listed
+// as "detected" in seeded/expected.json must make that check report a violation; one listed as
+// "missed" documents a known gap. Exit 1 if a change expected to be detected is not.
+
+type seedExpect struct {
+	Property string   `json:"property"`
+	Check    []string `json:"check"`
+	Expect   string   `json:"expect"`
+	Why      string   `json:"why,omitempty"`
+	Note     string   `json:"note,omitempty"`
+}
+
+type seedResult struct {
+	Seed       string `json:"seed"`
+	Property   string `json:"property"`
+	Expected   string `json:"expected"`
+	Violations int    `json:"violations"`
+	First      string `json:"first_obligation,omitempty"`
+	OK         bool   `json:"as_expected"`
+}
+
+var violRe = regexp.MustCompile(`violations=(\d+)`)
+
+func runSeeds(props []string, par int) ([]seedResult, bool) {
+	b, err := os.ReadFile(filepath.Join(verifDir, "seeded", "expected.json"))
+	if err != nil {
+		fmt.Fprintln(os.Stderr, "selftest:", err)
+		return nil, false
+	}
+	exp := map[string]*seedExpect{}
+	if err := json.Unmarshal(b, &exp); err != nil {
+		fmt.Fprintln(os.Stderr, "selftest:", err)
+		return nil, false
+	}
+	var ids []string
+	for id, e := range exp {
+		if len(props) == 0 || contains(props, e.Property) {
+			ids = append(ids, id)
+		}
+	}
+	sort.Strings(ids)
+	res := make([]seedResult, len(ids))
+	sem := make(chan struct{}, par)
+	var wg sync.WaitGroup
+	for i, id := range ids {
+		wg.Add(1)
+		go func(i int, id string) {
+			defer wg.Done()
+			sem <- struct{}{}
+			defer func() { <-sem }()
+			e := exp[id]
+			args := append([]string{filepath.Join(verifDir, "tool", "scripts", "seed_detect2.sh"), id}, e.Check...)
+			out, _ := exec.Command("bash", args...).CombinedOutput()
+			n := 0
+			first := ""
+			for _, l := range strings.Split(string(out), "\n") {
+				if m := violRe.FindStringSubmatch(l); m != nil {
+					k, _ := strconv.Atoi(m[1])
+					n += k
+					if f := strings.Fields(l); len(f) > 4 && first == "" {
+						first = f[4]
+					}
+				}
+			}
+			r := seedResult{Seed: id, Property: e.Property, Expected: e.Expect, Violations: n, First: first}
+			r.OK = (e.Expect == "detected" && n > 0) || e.Expect == "missed"
+			res[i] = r
+		}(i, id)
+	}
+	wg.Wait()
+	ok := true
+	for _, r := range res {
+		if !r.OK {
+			ok = false
+		}
+	}
+	return res, ok
+}
+
+func cmdSelftest(a []string) int {
+	if d := os.Getenv("RVC_VERIF"); d != "" {
+		verifDir = d
+	}
+	res, ok := runSeeds(a, 3)
+	for _, r := range res {
+		status := "ok"
+		if !r.OK {
+			status = "NOT DETECTED"
+		} else if r.Expected == "missed" && r.Violations == 0 {
+			status = "known miss"
+		}
+		fmt.Printf("%-8s %-4s expected=%-8s violations=%-3d %-12s %s\n", r.Seed, r.Property, r.Expected, r.Violations, status, r.First)
+	}
+	if !ok {
+		return 1
+	}
+	return 0
+}
